@@ -45,10 +45,14 @@ pub(crate) enum AttrC {
     Path { code: u8, segs: Vec<(u8, Vec<u32>)>, flags: u8, ext: bool },
     /// a type code routecore has no type for
     Raw { flags: u8, code: u8, ext: bool, value: Vec<u8> },
-    Reach { flags: u8, ext: bool, fam: usize, nh: Vec<u8>, nlri: Vec<Val> },
+    /// `rsv`: the reserved octet as sent (RFC 4760 3: 0; "SHOULD be ignored upon receipt")
+    Reach { flags: u8, ext: bool, fam: usize, nh: Vec<u8>, rsv: u8, nlri: Vec<Val> },
     Unreach { flags: u8, ext: bool, fam: usize, nlri: Vec<Val> },
+    /// MP_REACH_NLRI of an AFI/SAFI routecore has no NLRI type for: next-hop field, reserved octet
+    /// and the octets after it as they are (Lean: `AttrC.reachU`)
+    ReachU { flags: u8, ext: bool, afi: u16, safi: u8, nh: Vec<u8>, rsv: u8, body: Vec<u8> },
     /// MP_UNREACH_NLRI of an AFI/SAFI routecore has no NLRI type for: the octets after AFI/SAFI
-    /// as they are (only `upd` requests; the Lean content type has no such constructor)
+    /// as they are (Lean: `AttrC.unreachU`)
     UnreachU { flags: u8, ext: bool, afi: u16, safi: u8, body: Vec<u8> },
 }
 
@@ -66,11 +70,16 @@ fn attr_value(four: bool, a: &AttrC) -> Vec<u8> {
         AttrC::Val { v, .. } => v.ref_value().unwrap(),
         AttrC::Path { code, segs, .. } => ref_encode_path(segs, if *code == 17 { true } else { four }),
         AttrC::Raw { value, .. } => value.clone(),
-        AttrC::Reach { fam, nh, nlri, .. } => {
+        AttrC::Reach { fam, nh, rsv, nlri, .. } => {
             let k = FAM_NAMES[*fam].1;
             let mut o = k.0.to_be_bytes().to_vec(); o.push(k.1);
-            o.push(nh.len() as u8); o.extend(nh); o.push(0);
+            o.push(nh.len() as u8); o.extend(nh); o.push(*rsv);
             for n in nlri { o.extend(ref_enc(fam_shape(*fam), n)); }
+            o
+        }
+        AttrC::ReachU { afi, safi, nh, rsv, body, .. } => {
+            let mut o = afi.to_be_bytes().to_vec(); o.push(*safi);
+            o.push(nh.len() as u8); o.extend(nh); o.push(*rsv); o.extend(body);
             o
         }
         AttrC::Unreach { fam, nlri, .. } => {
@@ -83,12 +92,12 @@ fn attr_value(four: bool, a: &AttrC) -> Vec<u8> {
     }
 }
 fn attr_code(a: &AttrC) -> u8 {
-    match a { AttrC::Val { v, .. } => v.code(), AttrC::Path { code, .. } => *code, AttrC::Raw { code, .. } => *code, AttrC::Reach { .. } => 14, AttrC::Unreach { .. } | AttrC::UnreachU { .. } => 15 }
+    match a { AttrC::Val { v, .. } => v.code(), AttrC::Path { code, .. } => *code, AttrC::Raw { code, .. } => *code, AttrC::Reach { .. } | AttrC::ReachU { .. } => 14, AttrC::Unreach { .. } | AttrC::UnreachU { .. } => 15 }
 }
 /// flags octet on the wire (EXTENDED_LEN set exactly when the two-octet length is used)
 fn attr_flags(a: &AttrC) -> u8 {
     let (f, e) = match a { AttrC::Val { flags, ext, .. } | AttrC::Path { flags, ext, .. } | AttrC::Raw { flags, ext, .. }
-        | AttrC::Reach { flags, ext, .. } | AttrC::Unreach { flags, ext, .. } | AttrC::UnreachU { flags, ext, .. } => (*flags, *ext) };
+        | AttrC::Reach { flags, ext, .. } | AttrC::Unreach { flags, ext, .. } | AttrC::ReachU { flags, ext, .. } | AttrC::UnreachU { flags, ext, .. } => (*flags, *ext) };
     (f & 0xef) | if e { 0x10 } else { 0 }
 }
 fn enc_attr(four: bool, a: &AttrC) -> Vec<u8> {
@@ -165,18 +174,26 @@ pub(crate) fn expect(cfg: &Cfg, c: &Content) -> String {
     let ca = items(Shape::Pfx, &c.ann);
     put("cw", lst(&cw));
     put("ca", lst(&ca));
-    // the first MP_UNREACH_NLRI is of a family outside the 13: the property speaks of the NLRI of the
-    // supported families only, so of the NLRI accessors nothing is expected - but of End-of-RIB it is
-    let unsup = c.attrs.iter().find(|a| attr_code(a) == 15).map(|a| matches!(a, AttrC::UnreachU { .. })).unwrap_or(false);
-    let reach = c.attrs.iter().find_map(|a| if let AttrC::Reach { fam, nh, nlri, .. } = a { Some((*fam, nh.clone(), nlri.clone())) } else { None });
-    let unreach = c.attrs.iter().find_map(|a| if let AttrC::Unreach { fam, nlri, .. } = a { Some((*fam, nlri.clone())) } else { None });
+    // The first MP_REACH_NLRI / MP_UNREACH_NLRI (the accessors read the first). Of one of the 13 families:
+    // the NLRI type is the family with the session's ADD-PATH setting, the items are the NLRI. Of an
+    // AFI/SAFI outside the 13: the type is Unsupported(afi, safi) and there is NO item, whatever octets
+    // the attribute holds (C01 `unsupported_reach_reported` / `unsupported_unreach_reported`).
     let ty = |fam: usize| format!("{}{}", FAM_NAMES[fam].0, if cfg_rx(cfg, FAM_NAMES[fam].1) { "Addpath" } else { "" });
     let conv_ty = format!("Ipv4Unicast{}", if cfg_rx(cfg, (1, 1)) { "Addpath" } else { "" });
-    let mw: Vec<String> = unreach.as_ref().map(|(f, l)| items(fam_shape(*f), l)).unwrap_or_default();
-    let ma: Vec<String> = reach.as_ref().map(|(f, _, l)| items(fam_shape(*f), l)).unwrap_or_default();
-    if !unsup {
-        put("mw", match &unreach { Some((f, _)) => format!("{}:{}", ty(*f), lst(&mw)), None => "none".into() });
-        put("ma", match &reach { Some((f, _, _)) => format!("{}:{}", ty(*f), lst(&ma)), None => "none".into() });
+    // (type name, family index if supported, items)
+    let reach: Option<(String, Option<usize>, Vec<String>)> = c.attrs.iter().find(|a| attr_code(a) == 14).map(|a| match a {
+        AttrC::Reach { fam, nlri, .. } => (ty(*fam), Some(*fam), items(fam_shape(*fam), nlri)),
+        AttrC::ReachU { afi, safi, .. } => (format!("U{}.{}", afi, safi), None, vec![]),
+        _ => unreachable!() });
+    let unreach: Option<(String, Option<usize>, Vec<String>)> = c.attrs.iter().find(|a| attr_code(a) == 15).map(|a| match a {
+        AttrC::Unreach { fam, nlri, .. } => (ty(*fam), Some(*fam), items(fam_shape(*fam), nlri)),
+        AttrC::UnreachU { afi, safi, .. } => (format!("U{}.{}", afi, safi), None, vec![]),
+        _ => unreachable!() });
+    let mw: Vec<String> = unreach.as_ref().map(|x| x.2.clone()).unwrap_or_default();
+    let ma: Vec<String> = reach.as_ref().map(|x| x.2.clone()).unwrap_or_default();
+    {
+        put("mw", match &unreach { Some((t, _, _)) => format!("{}:{}", t, lst(&mw)), None => "none".into() });
+        put("ma", match &reach { Some((t, _, _)) => format!("{}:{}", t, lst(&ma)), None => "none".into() });
         put("w", lst(&[mw.clone(), cw.clone()].concat()));
         put("a", lst(&[ma.clone(), ca.clone()].concat()));
         put("wv", format!("ok:{}", lst(&[cw.clone(), mw.clone()].concat())));
@@ -184,6 +201,7 @@ pub(crate) fn expect(cfg: &Cfg, c: &Content) -> String {
         // typed_withdrawals::<T> / typed_announcements::<T>, for the NLRI type T the message itself has for
         // the section (family + the session's ADD-PATH setting for it): the items of the section. Nothing is
         // said of IPv4 unicast when it is in the conventional AND the MP section (the accessor has one answer).
+        // An unsupported AFI/SAFI is no T's: nothing may be reported for it.
         let typed = |conv: &[String], mp: Option<(usize, &Vec<String>)>| -> String {
             let mut parts: Vec<String> = Vec::new();
             let both = !conv.is_empty() && matches!(mp, Some((0, _)));
@@ -191,16 +209,16 @@ pub(crate) fn expect(cfg: &Cfg, c: &Content) -> String {
             if let Some((f, l)) = mp { if !both { parts.push(format!("{}:{}", ty(f), lst(l))); } }
             if parts.is_empty() { "-".into() } else { parts.join("&") }
         };
-        put("tw", typed(&cw, unreach.as_ref().map(|(f, _)| (*f, &mw))));
-        put("ta", typed(&ca, reach.as_ref().map(|(f, _, _)| (*f, &ma))));
+        put("tw", typed(&cw, unreach.as_ref().and_then(|x| x.1).map(|f| (f, &mw))));
+        put("ta", typed(&ca, reach.as_ref().and_then(|x| x.1).map(|f| (f, &ma))));
         put("fams", format!("{},{},{},{}",
             if c.wd.is_empty() { "-".into() } else { conv_ty.clone() }, if c.ann.is_empty() { "-".into() } else { conv_ty.clone() },
-            unreach.as_ref().map(|(f, _)| ty(*f)).unwrap_or("-".into()), reach.as_ref().map(|(f, _, _)| ty(*f)).unwrap_or("-".into())));
+            unreach.as_ref().map(|x| x.0.clone()).unwrap_or("-".into()), reach.as_ref().map(|x| x.0.clone()).unwrap_or("-".into())));
     }
     // End-of-RIB (RFC 4724 2): the empty UPDATE, or an UPDATE holding nothing but an MP_UNREACH_NLRI without
     // withdrawn routes. "Carries NLRI" is a fact about the octets: a non-empty conventional section, NLRI in
     // an MP_REACH_NLRI, octets after AFI/SAFI in an MP_UNREACH_NLRI - of ANY family, supported or not.
-    let unsup_body = c.attrs.iter().any(|a| matches!(a, AttrC::UnreachU { body, .. } if !body.is_empty()));
+    let unsup_body = c.attrs.iter().any(|a| matches!(a, AttrC::UnreachU { body, .. } | AttrC::ReachU { body, .. } if !body.is_empty()));
     let carries_nlri = !c.wd.is_empty() || !c.ann.is_empty() || !mw.is_empty() || !ma.is_empty() || unsup_body;
     let eor = if c.wd.is_empty() && c.ann.is_empty() && c.attrs.is_empty() { "Ipv4Unicast".to_string() }
         else if carries_nlri { "-".into() }
@@ -215,14 +233,22 @@ pub(crate) fn expect(cfg: &Cfg, c: &Content) -> String {
     put("origin", val(1).map(|v| v[0].to_string()).unwrap_or("-".into()));
     put("aspath", match find(2) { Some(AttrC::Path { segs, .. }) => format!("{}:{}", hex(&val(2).unwrap()), path_text(segs, four)), _ => "-".into() });
     put("as4path", match find(17) { Some(AttrC::Path { segs, .. }) => format!("{}:{}", hex(&val(17).unwrap()), path_text(segs, true)), _ => "-".into() });
+    // hops() / segments() / the segments' asns() of the returned paths, driven to their ends: a non-empty
+    // AS_SEQUENCE yields one hop per AS number, every other segment is one hop (RFC 4271 4.3 / 5065)
+    let pit = |code: u8| match find(code) { Some(AttrC::Path { segs, .. }) => format!("{}.{}.{}",
+        segs.iter().map(|(t, a)| if *t == 2 && !a.is_empty() { a.len() } else { 1 }).sum::<usize>(), segs.len(), segs.iter().map(|(_, a)| a.len()).sum::<usize>()), _ => "-".into() };
+    put("pit", format!("{}/{}", pit(2), pit(17)));
     put("cnh", val(3).map(|v| format!("uni:{}", hex(&v))).unwrap_or("-".into()));
-    put("mnh", reach.as_ref().map(|(f, nh, _)| nh_text(*f, nh)).unwrap_or("-".into()));
+    // the MP next hop: the next-hop field read by the family's rule; there is no rule for an AFI/SAFI
+    // outside the 13 (`mp_next_hop()` is an Err, whatever the field holds). The reserved octet plays no role.
+    let reach_nh: Option<(usize, Vec<u8>)> = c.attrs.iter().find(|a| attr_code(a) == 14).and_then(|a| if let AttrC::Reach { fam, nh, .. } = a { Some((*fam, nh.clone())) } else { None });
+    put("mnh", match (&reach, &reach_nh) { (None, _) => "-".into(), (Some(_), Some((f, nh))) => nh_text(*f, nh), (Some(_), None) => "err".into() });
     // find_next_hop(k): the MP next hop when the MP_REACH_NLRI is of family k; for IPv4 unicast
     // otherwise the conventional NEXT_HOP; nothing for every other family
     let mut fnh: Vec<String> = Vec::new();
     for (i, (name, k)) in FAM_NAMES.iter().enumerate() {
-        match &reach {
-            Some((f, nh, _)) if *f == i => fnh.push(format!("{}:{}", name, nh_text(*f, nh))),
+        match &reach_nh {
+            Some((f, nh)) if *f == i => fnh.push(format!("{}:{}", name, nh_text(*f, nh))),
             _ => if *k == (1, 1) { if let Some(v) = val(3) { fnh.push(format!("{}:uni:{}", name, hex(&v))); } },
         }
     }
@@ -282,9 +308,11 @@ fn attr_spec(a: &AttrC, hop_form: bool) -> String {
             format!("p~{}~{}~{}", fl, code, if l.is_empty() { "-".into() } else { l.join(",") })
         }
         AttrC::Raw { code, value, .. } => format!("r~{}~{}~{}", fl, code, hex(value)),
-        AttrC::Reach { fam, nh, nlri, .. } => format!("m~{}~{}~{}~{}", fl, FAM_NAMES[*fam].0, hex(nh), lst(&items(fam_shape(*fam), nlri))),
+        AttrC::Reach { fam, nh, rsv: 0, nlri, .. } => format!("m~{}~{}~{}~{}", fl, FAM_NAMES[*fam].0, hex(nh), lst(&items(fam_shape(*fam), nlri))),
+        AttrC::Reach { fam, nh, rsv, nlri, .. } => format!("m~{}~{}~{}~{}~{}", fl, FAM_NAMES[*fam].0, hex(nh), lst(&items(fam_shape(*fam), nlri)), rsv),
+        AttrC::ReachU { afi, safi, nh, rsv, body, .. } => format!("M~{}~{}.{}~{}~{}~{}", fl, afi, safi, hex(nh), rsv, hex(body)),
         AttrC::Unreach { fam, nlri, .. } => format!("u~{}~{}~{}", fl, FAM_NAMES[*fam].0, lst(&items(fam_shape(*fam), nlri))),
-        AttrC::UnreachU { .. } => unreachable!("no `enc` request is made for an MP_UNREACH_NLRI of an unsupported family"),
+        AttrC::UnreachU { afi, safi, body, .. } => format!("U~{}~{}.{}~{}", fl, afi, safi, hex(body)),
     }
 }
 
@@ -310,6 +338,12 @@ fn small_nat(s: &str) -> Option<u64> {
     if s.is_empty() || s.len() > 6 || !s.bytes().all(|c| c.is_ascii_digit()) { None } else { s.parse().ok() }
 }
 fn parse_u8(s: &str) -> Option<u8> { small_nat(s).and_then(|n| u8::try_from(n).ok()) }
+/// `AFI.SAFI` in decimal
+fn parse_key(s: &str) -> Option<(u16, u8)> {
+    let (a, b) = s.split_once('.')?;
+    if b.contains('.') { return None; }
+    Some((u16::try_from(small_nat(a)?).ok()?, u8::try_from(small_nat(b)?).ok()?))
+}
 
 /// a hop path as one segment per run of AS_SEQUENCE hops (a run longer than 255 is split
 /// into a first segment of `n % 255` and segments of 255 - any split is valid RFC 4271
@@ -358,7 +392,10 @@ fn parse_attr(s: &str) -> Option<AttrC> {
             AttrC::Path { code, segs, flags, ext }
         }
         ("r", 4) => AttrC::Raw { flags, code: parse_u8(p[2])?, ext, value: unhex_strict(p[3])? },
-        ("m", 5) => { let f = fam(p[2])?; AttrC::Reach { flags, ext, fam: f, nh: unhex_strict(p[3])?, nlri: parse_items(fam_shape(f), p[4])? } }
+        ("m", 5) => { let f = fam(p[2])?; AttrC::Reach { flags, ext, fam: f, nh: unhex_strict(p[3])?, rsv: 0, nlri: parse_items(fam_shape(f), p[4])? } }
+        ("m", 6) => { let f = fam(p[2])?; AttrC::Reach { flags, ext, fam: f, nh: unhex_strict(p[3])?, rsv: parse_u8(p[5])?, nlri: parse_items(fam_shape(f), p[4])? } }
+        ("M", 6) => { let (afi, safi) = parse_key(p[2])?; AttrC::ReachU { flags, ext, afi, safi, nh: unhex_strict(p[3])?, rsv: parse_u8(p[4])?, body: unhex_strict(p[5])? } }
+        ("U", 4) => { let (afi, safi) = parse_key(p[2])?; AttrC::UnreachU { flags, ext, afi, safi, body: unhex_strict(p[3])? } }
         ("u", 4) => { let f = fam(p[2])?; AttrC::Unreach { flags, ext, fam: f, nlri: parse_items(fam_shape(f), p[3])? } }
         _ => return None,
     })
@@ -498,7 +535,7 @@ pub(crate) fn gen_case(rng: &mut Rng, fam_hint: Option<usize>, max: usize) -> (C
     if let Some(f) = mp_fam {
         let k = nmp(rng); let nlri = gen_nlri(rng, &cfg, f, k);
         let pos = rng.usize(0, attrs.len());
-        attrs.insert(pos, AttrC::Reach { flags: flag_noise(rng, 0x80), ext: true, fam: f, nh: gen_nh(rng, f), nlri });
+        attrs.insert(pos, AttrC::Reach { flags: flag_noise(rng, 0x80), ext: true, fam: f, nh: gen_nh(rng, f), rsv: 0, nlri });
     }
     if let Some(f) = un_fam {
         let k = nmp(rng); let nlri = gen_nlri(rng, &cfg, f, k);
@@ -529,16 +566,23 @@ pub(crate) fn gen_case(rng: &mut Rng, fam_hint: Option<usize>, max: usize) -> (C
 /// a message filled up to exactly `target` octets with conventional /32 announcements
 fn gen_full(rng: &mut Rng, target: usize) -> (Cfg, Content) {
     let (cfg, mut c) = gen_case(rng, Some(13), 600);
+    fill_to(rng, &cfg, &mut c, target);
+    (cfg, c)
+}
+
+/// conventional announcements appended until the encoding has exactly `target` octets
+/// (/32s, then shorter prefixes for the remainder; a remainder the NLRI grammar cannot fill is left)
+fn fill_to(rng: &mut Rng, cfg: &Cfg, c: &mut Content, target: usize) {
+    let cfg = cfg.clone();
     let ap = cfg_rx(&cfg, (1, 1));
     let per = if ap { 9 } else { 5 };
-    loop {
-        let have = ref_encode(&cfg, &c).len();
-        if have + per > target { break; }
+    let mut have = ref_encode(&cfg, c).len();
+    while have + per <= target {
         c.ann.push(Val { pid: if ap { Some(rng.u32() as u64) } else { None }, plen: 32, addr: rng.bytes(4), ..Default::default() });
+        have += per;
     }
     // the remainder as shorter prefixes
     loop {
-        let have = ref_encode(&cfg, &c).len();
         if have >= target { break; }
         let room = target - have;
         let base = if ap { 5 } else { 1 };
@@ -546,8 +590,146 @@ fn gen_full(rng: &mut Rng, target: usize) -> (Cfg, Content) {
         let nb = (room - base).min(4);
         let plen = 8 * nb as u64;
         c.ann.push(Val { pid: if ap { Some(7) } else { None }, plen, addr: crate::props::c05::gen_addr(rng, false, plen, 4), ..Default::default() });
+        have += base + nb;
     }
+    debug_assert_eq!(have, ref_encode(&cfg, c).len());
+}
+
+/// Reserved octet and unsupported families: now and then the MP_REACH_NLRI of a generated content gets a
+/// non-zero reserved octet, or an MP attribute is replaced by one of an AFI/SAFI outside the 13 with
+/// opaque octets (all copies of a repeated MP attribute alike: a repeated MP attribute repeats its content)
+fn vary_mp(rng: &mut Rng, c: &mut Content) {
+    let unsup = |rng: &mut Rng| loop { let k = (rng.below(300) as u16, rng.u8()); if !FAM_NAMES.iter().any(|x| x.1 == k) { break k; } };
+    if rng.chance(1, 4) { let r = *rng.pick(&[1u8, 0x80, 0xff, 0x7f]); for a in c.attrs.iter_mut() { if let AttrC::Reach { rsv, .. } = a { *rsv = r; } } }
+    if rng.chance(1, 10) {
+        let (k, nhl, r) = (unsup(rng), *rng.pick(&[0usize, 4, 16, 3, 32, 255]), if rng.bool() { 0 } else { rng.u8() });
+        let (nh, n) = (rng.bytes(nhl), match rng.below(3) { 0 => 0, 1 => 1, _ => rng.usize(1, 40) });
+        let body = rng.bytes(n);
+        for a in c.attrs.iter_mut() { if let AttrC::Reach { flags, .. } = a {
+            let len = 5 + nh.len() + body.len();
+            *a = AttrC::ReachU { flags: *flags, ext: len > 255, afi: k.0, safi: k.1, nh: nh.clone(), rsv: r, body: body.clone() }; } }
+    }
+    if rng.chance(1, 10) {
+        let k = unsup(rng);
+        let n = match rng.below(3) { 0 => 0, 1 => 1, _ => rng.usize(1, 40) };
+        let body = rng.bytes(n);
+        for a in c.attrs.iter_mut() { if let AttrC::Unreach { flags, ext, .. } = a { *a = AttrC::UnreachU { flags: *flags, ext: *ext, afi: k.0, safi: k.1, body: body.clone() }; } }
+    }
+}
+
+/// Well-formed UPDATEs of every size class up to 65535 octets (the decoder accepts them; 4096 is the
+/// framing layer's rule, RFC 4271 4.1 / RFC 8654): `kind` selects what makes the message large.
+///   0 many conventional announcements           1 many withdrawals and announcements
+///   2 community attributes of thousands of records (8 / 16 / 25 / 32)
+///   3 AS_PATH / AS4_PATH of hundreds of segments  4 MP_REACH_NLRI / MP_UNREACH_NLRI of > 4096 octets
+///   5 one unrecognised attribute whose two-octet length is as large as the message allows
+///   6 CLUSTER_LIST / ATTR_SET / large opaque MP attribute of an unsupported family
+/// The message is then filled to exactly `target` octets with conventional announcements where the
+/// NLRI grammar allows (`exact`).
+pub(crate) fn gen_big(rng: &mut Rng, kind: usize, target: usize, exact: bool) -> (Cfg, Content) {
+    let four = rng.chance(2, 3);
+    let mut ap: Vec<((u16, u8), char)> = Vec::new();
+    if rng.bool() { ap.push(((1, 1), 'b')); }
+    let fam = rng.usize(0, 12);
+    if rng.bool() { ap.push((FAM_NAMES[fam].1, *rng.pick(&['r', 'b']))); }
+    let cfg: Cfg = (four, ap);
+    let budget = target.saturating_sub(23 + 40);
+    let mut c = Content { wd: vec![], attrs: vec![], ann: vec![] };
+    let origin = AttrC::Val { v: V::Origin(rng.below(3) as u8), flags: 0x40, ext: false };
+    match kind {
+        0 => { c.attrs.push(origin); }
+        1 => { let per = if cfg_rx(&cfg, (1, 1)) { 9 } else { 5 }; c.wd = gen_nlri(rng, &cfg, 0, budget / 2 / per); c.attrs.push(origin); }
+        2 => {
+            let which = rng.below(4);
+            let rec = [4usize, 8, 20, 12][which as usize];
+            let n = budget / rec - if rng.bool() { 0 } else { rng.usize(0, (budget / rec).min(50)) };
+            let v = match which {
+                0 => V::Communities((0..n).map(|_| rng.u32()).collect()),
+                1 => V::ExtComm((0..n).map(|_| rng.bytes(8)).collect()),
+                2 => V::Ipv6ExtComm((0..n).map(|_| rng.bytes(20)).collect()),
+                _ => V::LargeComm((0..n).map(|_| rng.bytes(12)).collect()),
+            };
+            c.attrs.push(origin);
+            c.attrs.push(AttrC::Val { v, flags: 0xc0, ext: true });
+            // a second, small community attribute of another kind: all_communities() chains them
+            if rng.bool() { c.attrs.push(AttrC::Val { v: if which == 0 { V::LargeComm(vec![rng.bytes(12)]) } else { V::Communities(vec![rng.u32(), 0xffffff01]) }, flags: 0xc0, ext: false }); }
+        }
+        3 => {
+            let code = if rng.chance(2, 3) { 2u8 } else { 17 };
+            let w = if code == 17 || four { 4 } else { 2 };
+            let mut segs: Vec<(u8, Vec<u32>)> = Vec::new();
+            let mut used = 0usize;
+            // hundreds of segments: mostly short ones (incl. empty ones), now and then one of 255
+            loop {
+                let n = match rng.below(12) { 0 => 0, 1 => 255, 2 => 254, _ => rng.usize(0, 6) };
+                if used + 2 + w * n > budget { break; }
+                let ty = if rng.bool() { 2 } else { rng.range(1, 4) as u8 };
+                segs.push((ty, (0..n).map(|_| if w == 4 && rng.chance(1, 4) { rng.u32() } else { rng.below(65536) as u32 }).collect()));
+                used += 2 + w * n;
+            }
+            c.attrs.push(origin);
+            c.attrs.push(AttrC::Path { code, segs, flags: if code == 2 { 0x40 } else { 0xc0 }, ext: true });
+        }
+        4 => {
+            // NLRI of the family until the budget is used (an MP attribute far above 4096 octets)
+            let mut take = |rng: &mut Rng, room: usize| -> Vec<Val> {
+                let mut l: Vec<Val> = Vec::new(); let mut used = 0usize;
+                loop {
+                    let mut batch = gen_nlri(rng, &cfg, fam, 64);
+                    let mut full = false;
+                    for v in batch.drain(..) { let n = ref_enc(fam_shape(fam), &v).len(); if used + n > room { full = true; break; } used += n; l.push(v); }
+                    if full { break; }
+                }
+                l
+            };
+            c.attrs.push(origin);
+            match rng.below(3) {
+                0 => { let nlri = take(rng, budget.saturating_sub(60)); c.attrs.push(AttrC::Reach { flags: 0x80, ext: true, fam, nh: gen_nh(rng, fam), rsv: if rng.bool() { 0 } else { rng.u8() }, nlri }); }
+                1 => { let nlri = take(rng, budget.saturating_sub(20)); c.attrs.push(AttrC::Unreach { flags: 0x80, ext: true, fam, nlri }); }
+                _ => { let a = take(rng, budget / 2 - 60); let b = take(rng, budget / 2 - 20);
+                       c.attrs.push(AttrC::Unreach { flags: 0x80, ext: true, fam, nlri: b });
+                       c.attrs.push(AttrC::Reach { flags: 0x90, ext: true, fam, nh: gen_nh(rng, fam), rsv: 0, nlri: a }); }
+            }
+        }
+        5 => {
+            let code = loop { let x = rng.u8(); if canon_flags(x).is_none() && x != 14 && x != 15 { break x; } };
+            // flags, type, two length octets, value: the attribute section is everything but the 23 fixed octets
+            c.attrs.push(AttrC::Raw { flags: rng.u8() & 0xe0, code, ext: true, value: rng.bytes(target - 23 - 4) });
+        }
+        _ => {
+            c.attrs.push(origin);
+            match rng.below(3) {
+                0 => c.attrs.push(AttrC::Val { v: V::ClusterList((0..budget / 4).map(|_| rng.u32()).collect()), flags: 0x80, ext: true }),
+                1 => c.attrs.push(AttrC::Val { v: V::AttrSet(rng.u32(), crate::props::c02::nested_attr_set(rng.usize(1, 40), 0xc0)), flags: 0xc0, ext: true }),
+                _ => { let k = loop { let k = (rng.below(300) as u16, rng.u8()); if !FAM_NAMES.iter().any(|x| x.1 == k) { break k; } };
+                       let nhl = *rng.pick(&[0usize, 4, 16, 255]); let nh = rng.bytes(nhl);
+                       c.attrs.push(AttrC::ReachU { flags: 0x80, ext: true, afi: k.0, safi: k.1, nh, rsv: rng.u8(), body: rng.bytes(budget / 2) });
+                       c.attrs.push(AttrC::UnreachU { flags: 0x80, ext: true, afi: k.0, safi: k.1, body: rng.bytes(budget / 2 - 300) }); }
+            }
+        }
+    }
+    loop {
+        let have = ref_encode(&cfg, &c).len();
+        if have <= target { break; }
+        let over = have - target;
+        if !c.ann.is_empty() { let k = (over / 9).max(1).min(c.ann.len()); c.ann.truncate(c.ann.len() - k); }
+        else if !c.wd.is_empty() { let k = (over / 9).max(1).min(c.wd.len()); c.wd.truncate(c.wd.len() - k); }
+        else { c.attrs.pop(); }
+    }
+    if exact || kind == 0 { fill_to(rng, &cfg, &mut c, target); }
     (cfg, c)
+}
+
+/// (kind, target, exact) of the large messages of a run: every kind in every size class, and the exact
+/// boundaries 4096 / 4097 (the framing layer's limit and the first size beyond it), 65535 (the length
+/// field's limit), an attribute section of 65535 - 23 octets
+pub(crate) fn big_plan(rng: &mut Rng, scale: usize) -> Vec<(usize, usize, bool)> {
+    let mut plan: Vec<(usize, usize, bool)> = Vec::new();
+    for kind in 0..7 { for t in [4096usize, 4097, 65535] { plan.push((kind, t, true)); } }
+    for kind in 0..7 { for class in [(4098usize, 8192usize), (8193, 16384), (16385, 32768), (32769, 65534)] { plan.push((kind, rng.usize(class.0, class.1), kind % 2 == 0)); } }
+    plan.push((5, 65535, true)); // one attribute of 65508 value octets: the attribute section has 65535 - 23
+    for _ in 0..(7 * (scale - 1)) { plan.push((rng.usize(0, 6), rng.usize(4097, 65535), rng.bool())); }
+    plan
 }
 
 impl Prop for C01 {
@@ -562,7 +744,7 @@ impl Prop for C01 {
             match extra {
                 1 => c.ann = gen_nlri(rng, &cfg, 0, 1),
                 2 => c.wd = gen_nlri(rng, &cfg, 0, 1),
-                3 => { let g = (f + 1) % 13; let nlri = gen_nlri(rng, &cfg, g, 1); c.attrs.insert(rng.usize(0, 1), AttrC::Reach { flags: 0x80, ext: false, fam: g, nh: gen_nh(rng, g), nlri }); }
+                3 => { let g = (f + 1) % 13; let nlri = gen_nlri(rng, &cfg, g, 1); c.attrs.insert(rng.usize(0, 1), AttrC::Reach { flags: 0x80, ext: false, fam: g, nh: gen_nh(rng, g), rsv: 0, nlri }); }
                 _ => {}
             }
             out.push(case_line(&cfg, &c));
@@ -580,14 +762,38 @@ impl Prop for C01 {
                     match rng.below(4) {
                         0 => c.ann = gen_nlri(rng, &cfg, 0, 1),
                         1 => c.wd = gen_nlri(rng, &cfg, 0, 1),
-                        2 => { let g = rng.usize(0, 12); let nlri = gen_nlri(rng, &cfg, g, 1); c.attrs.insert(rng.usize(0, 1), AttrC::Reach { flags: 0x80, ext: false, fam: g, nh: gen_nh(rng, g), nlri }); }
+                        2 => { let g = rng.usize(0, 12); let nlri = gen_nlri(rng, &cfg, g, 1); c.attrs.insert(rng.usize(0, 1), AttrC::Reach { flags: 0x80, ext: false, fam: g, nh: gen_nh(rng, g), rsv: 0, nlri }); }
                         _ => c.attrs.insert(rng.usize(0, 1), AttrC::Val { v: gen_value(rng, 0), flags: 0x40, ext: false }),
                     }
                     if rng.bool() { cfg.1.push(((1, 1), 'b')); for v in c.wd.iter_mut().chain(c.ann.iter_mut()) { v.pid = Some(v.pid.unwrap_or(3)); } }
                 }
                 out.push(case_line(&cfg, &c));
+                out.push(enc_line(&cfg, &c, false));
+                // MP_REACH_NLRI of the same unsupported AFI/SAFI: any next-hop field, any reserved octet, opaque
+                // octets - alone, next to conventional NLRI / NEXT_HOP, next to an MP_UNREACH_NLRI of a family
+                let nh = match variant { 0 => vec![], 1 => vec![10, 0, 0, 1], 2 => rng.bytes(16), 3 => rng.bytes(255), 4 => rng.bytes(32), _ => rng.bytes(3) };
+                let body = match variant { 0 => vec![], 1 => vec![0x18, 10, 0, 0], _ => { let n = rng.usize(0, 40); rng.bytes(n) } };
+                let len = 5 + nh.len() + body.len();
+                let mut c = Content { wd: vec![], attrs: vec![AttrC::ReachU { flags: 0x80, ext: len > 255 || variant == 2, afi, safi, nh, rsv: [0u8, 1, 0xff, 0x80, 0, 7][variant], body }], ann: vec![] };
+                match variant {
+                    1 => { c.ann = gen_nlri(rng, &cfg, 0, 2); c.attrs.push(AttrC::Val { v: V::NextHop(0x0a000001), flags: 0x40, ext: false }); }
+                    2 => c.wd = gen_nlri(rng, &cfg, 0, 1),
+                    4 => { let g = rng.usize(0, 12); let k = rng.usize(0, 2); let nlri = gen_nlri(rng, &cfg, g, k); c.attrs.insert(rng.usize(0, 1), AttrC::Unreach { flags: 0x80, ext: false, fam: g, nlri }); }
+                    5 => c.attrs.insert(0, AttrC::UnreachU { flags: 0x80, ext: false, afi, safi, body: vec![] }),
+                    _ => {}
+                }
+                out.push(case_line(&cfg, &c));
+                out.push(enc_line(&cfg, &c, false));
             }
         }
+        // the reserved octet of an MP_REACH_NLRI of each of the 13 families: every value class, with and without NLRI
+        for f in 0..13usize { for (i, rsv) in [1u8, 0x7f, 0x80, 0xff].into_iter().enumerate() {
+            let cfg: Cfg = (i % 2 == 0, if i >= 2 { vec![(FAM_NAMES[f].1, 'b')] } else { vec![] });
+            let k = rng.usize(0, 3); let nlri = gen_nlri(rng, &cfg, f, k);
+            let c = Content { wd: vec![], attrs: vec![AttrC::Val { v: V::Origin(0), flags: 0x40, ext: false }, AttrC::Reach { flags: 0x80, ext: true, fam: f, nh: gen_nh(rng, f), rsv, nlri }], ann: vec![] };
+            out.push(case_line(&cfg, &c));
+            out.push(enc_line(&cfg, &c, false));
+        } }
         // ... and in free mixes: the MP_UNREACH_NLRI of a generated content replaced by one of an unsupported family
         for i in 0..(150 * scale) {
             let (cfg, mut c) = gen_case(rng, Some(i % 16), 300);
@@ -597,7 +803,7 @@ impl Prop for C01 {
             // (in place of it: two MP_UNREACH_NLRI of different content are no well-formed UPDATE)
             c.attrs.retain(|a| attr_code(a) != 15);
             let j = rng.usize(0, c.attrs.len()); c.attrs.insert(j, u);
-            if ref_encode(&cfg, &c).len() <= 4096 { out.push(case_line(&cfg, &c)); }
+            if ref_encode(&cfg, &c).len() <= 4096 { out.push(case_line(&cfg, &c)); out.push(enc_line(&cfg, &c, i % 2 == 0)); }
         }
         out.push(case_line(&(true, vec![]), &Content { wd: vec![], attrs: vec![], ann: vec![] }));
         out.push(case_line(&(false, vec![((1, 1), 'b')]), &Content { wd: vec![], attrs: vec![], ann: vec![] }));
@@ -607,13 +813,21 @@ impl Prop for C01 {
         out.push("enc 5 - - -".into());
         // every family x ADD-PATH x ASN width, free mixes, sizes up to 300
         for i in 0..(5000 * scale) {
-            let (cfg, c) = gen_case(rng, Some(i % 16), if i % 7 == 0 { 4096 } else { 400 });
+            let (cfg, mut c) = gen_case(rng, Some(i % 16), if i % 7 == 0 { 4096 } else { 400 });
+            vary_mp(rng, &mut c);
             out.push(case_line(&cfg, &c));
             // the same content as an `enc` request (AS paths as hop paths in every second, where the segments allow it)
             out.push(enc_line(&cfg, &c, i % 2 == 0));
         }
         // sizes at the PDU limit
         for t in [4096usize, 4095, 4094, 4090, 4000, 2048] { for _ in 0..(2 * scale) { let (cfg, c) = gen_full(rng, t); out.push(case_line(&cfg, &c)); out.push(enc_line(&cfg, &c, false)); } }
+        // every size class up to 65535 octets (the decoder accepts them: 4096 is the framing layer's rule), large
+        // for every structural reason; the exact boundaries 4096 / 4097 / 65535; attribute section 65535 - 23
+        for (kind, target, exact) in big_plan(rng, scale) {
+            let (cfg, c) = gen_big(rng, kind, target, exact);
+            out.push(case_line(&cfg, &c));
+            out.push(enc_line(&cfg, &c, false));
+        }
         // the same octets under the three other width / conventional ADD-PATH configurations:
         // nothing is expected (no EXPECT token), the model has to agree and C02 judges
         for _ in 0..(300 * scale) {
